@@ -28,8 +28,18 @@ def sym_int(it, name, lo=None, hi=None, register=True):
     return v
 
 
+def _scope_of_the_property(ctx):
+    """A property stated for strict parsing only (C05: "with tolerant_parsing=False ...") is decided on the strict paths of the
+    shared units only: clauses that can only fail in tolerant mode (progress after a swallowed error, recovery nodes) belong to
+    C06 and must not raise an alarm for C05.  Every walker / reader of the unit set-ups uses the one symbol 'tolerant_parsing'."""
+    return        # (applied where the symbol is made, see sym_bool: units that never mention the flag are left untouched)
+
+
 def sym_bool(it, name, register=True):
     v = z3.Bool(name)
+    if name == 'tolerant_parsing' and getattr(it.ctx.cfg, 'strict_only', False) and not it.ctx.ghost.get('strict_scope_assumed'):
+        it.ctx.ghost['strict_scope_assumed'] = True
+        it.ctx.assume(z3.Not(v))
     if register:
         it.ctx.register_input(name, 'bool', v)
     return v
@@ -699,6 +709,7 @@ class FunctionUnit(object):
         it.unit_inline = self.inline
         it.func_stack = []
         col = ctx.collector
+        _scope_of_the_property(ctx)
         try:
             func = self.resolver(it) if self.resolver is not None else resolve_function(it, c.qualname)
             bound = c.setup(it)
@@ -848,6 +859,7 @@ class LemmaUnit(object):
         it.unit_func = None
         it.unit_inline = set()
         it.func_stack = []
+        _scope_of_the_property(ctx)
         try:
             self.fn(it)
         except EngineError as e:
